@@ -101,6 +101,7 @@ def main() -> int:
 
     # 4+5. known findings, correspondence, implementation-vs-specification
     drv = common.Driver()
+    run.drv = drv  # the reference decides whether a generated schema the compiler refused was valid at all (Run.violation)
     proofs_ok = ok and not bad_axioms and not forbidden
     budget_tier = tier if proofs_ok else "thorough"  # failing-input search gets the thorough budget
     if spec.get("wire_corpus", False):
